@@ -824,6 +824,91 @@ var scenarioTable = map[string]func(s *sc){
 		s.flush(kinds("VC"))
 		s.flush(any)
 	},
+	// C10/C03: n2 holds the proposal A but none of the PREPAREs; the Byzantine member n3 sends it a COMMIT for ANOTHER hash, then
+	// the genuine COMMITs for A of n0 and n1 arrive: two of quorum three - n2 must neither send its COMMIT nor decide yet
+	"byzantine_commit_for_another_hash_before_two_genuine_commits": func(s *sc) {
+		s.startNodes()
+		s.flush(kinds("PP"))
+		s.flush(func(p pending, k string) bool { return k == "P" && p.to != 2 })
+		b := s.adv.newBody(s.run, 1, false)
+		s.inject(2, s.adv.mkC(ref(protocol.LEAN_HELIX_COMMIT, 1, 0, b), s.cl.ids[3], "", ""), "c_byz_or_outsider")
+		s.flush(func(p pending, k string) bool { return k == "C" && p.to == 2 })
+		s.flush(any)
+	},
+	// C08: every correct member is prepared on A; n1 has its own COMMIT and the genuine one of n0.  The Byzantine member n3 sends
+	// n1 a COMMIT for A with a valid header signature but with the random-seed share copied from n0's COMMIT: not a valid share
+	// of n3, so it must not be stored, must not complete the quorum and must not end up in a block proof
+	"byzantine_commit_with_share_copied_from_a_genuine_commit": func(s *sc) {
+		s.startNodes()
+		s.flush(kinds("PP"))
+		s.flush(kinds("P"))
+		s.flushOne(func(p pending, k string) bool { return k == "C" && p.to == 1 && p.from == "n0" })
+		var a *vBlock
+		for _, pp := range s.adv.ppSeen {
+			if vb, ok := pp.Block().(*vBlock); ok {
+				a = vb
+			}
+		}
+		if a == nil {
+			return
+		}
+		s.inject(1, s.adv.mkC(ref(protocol.LEAN_HELIX_COMMIT, 1, 0, a), s.cl.ids[3], "", "stolen"), "c_share_of_another_member")
+		s.flush(any)
+	},
+	// C01: the Byzantine leader n0 of view 0 equivocates: PREPREPARE(A) to n1 only, PREPREPARE(B) to n2 and n3, which prepare B
+	// (with n0's help) and decide it.  n1, still holding A, then receives the COMMIT quorum for B: it must not decide anything
+	"equivocating_first_leader_commit_quorum_for_the_other_block": func(s *sc) {
+		s.startNodes()
+		a, b := s.adv.newBody(s.run, 1, false), s.adv.newBody(s.run, 1, false)
+		s.inject(1, s.adv.mkPP(ref(protocol.LEAN_HELIX_PREPREPARE, 1, 0, a), s.cl.ids[0], "", a), "pp_leader")
+		for _, i := range []int{2, 3} {
+			s.inject(i, s.adv.mkPP(ref(protocol.LEAN_HELIX_PREPREPARE, 1, 0, b), s.cl.ids[0], "", b), "pp_leader")
+		}
+		s.flush(kinds("P"))
+		for _, i := range []int{1, 2, 3} {
+			s.inject(i, s.adv.mkC(ref(protocol.LEAN_HELIX_COMMIT, 1, 0, b), s.cl.ids[0], "", ""), "c_byz_or_outsider")
+		}
+		s.flush(kinds("C"))
+		s.flush(any)
+	},
+	// C03/C01: nobody is prepared in view 0 (the PREPAREs for B are lost; the adversary has seen them), but the next leader n1
+	// holds the proposal B.  Everybody times out.  The Byzantine member n3 votes first, with a GENUINE prepared proof for B but
+	// ANOTHER block X attached.  n1 must not count that vote (the block it would re-propose is not the certified one).  Then
+	// the votes of n0 and n2 arrive; whatever NEW_VIEW n1 sends, n3 re-sends its signed content with block B attached instead.
+	"vote_with_genuine_proof_and_another_block_to_a_leader_holding_the_proposal": func(s *sc) {
+		s.startNodes()
+		s.flush(kinds("PP"))
+		var b *vBlock
+		for _, pp := range s.adv.ppSeen {
+			if vb, ok := pp.Block().(*vBlock); ok {
+				b = vb
+			}
+		}
+		s.dropAll(any)
+		for _, i := range []int{0, 1, 2} {
+			s.timeout(i)
+		}
+		if b == nil {
+			return
+		}
+		x := s.adv.newBody(s.run, 1, false)
+		pr := proofD{present: true, pp: ref(protocol.LEAN_HELIX_PREPREPARE, 1, 0, b), ppBy: s.cl.ids[0], p: ref(protocol.LEAN_HELIX_PREPARE, 1, 0, b),
+			pBy: []primitives.MemberId{s.cl.ids[1], s.cl.ids[2]}, pModes: []string{"", ""}}
+		s.inject(1, s.adv.mkVC(voteD{ht: protocol.LEAN_HELIX_VIEW_CHANGE, inst: clusterInstance, h: 1, v: 1, sender: s.cl.ids[3], proof: pr}, x), "vc_genuine_proof_other_block")
+		s.flushOne(func(p pending, k string) bool { return k == "VC" && p.from == "n0" })
+		s.flush(kinds("VC"))
+		var nvs []pending
+		for _, p := range s.pool {
+			if kindOf(p.raw) == "NV" {
+				nvs = append(nvs, p)
+			}
+		}
+		s.flush(kinds("NV"))
+		for _, p := range nvs { // the same signed NEW_VIEW content, relayed with the certified block attached
+			s.inject(p.to, &interfaces.ConsensusRawMessage{Content: p.raw.Content, Block: b}, "nv_relayed_with_other_block")
+		}
+		s.flush(any)
+	},
 	// lagging node (all honest): n3 receives the traffic of height 2 first (future cache), then height 1; the
 	// commit of height 1 starts round 2, whose drain commits height 2 in the middle (H11 in situ)
 	"lagging_node_drains_cached_height": func(s *sc) {
@@ -861,11 +946,13 @@ func msgHeight(p pending) uint64 {
 
 func scenarioByz(name string) []int {
 	switch name {
-	case "vote_with_block_but_no_proof", "spliced_proof_for_rejected_block", "future_commit_signed_for_other_instance":
+	case "vote_with_block_but_no_proof", "spliced_proof_for_rejected_block", "future_commit_signed_for_other_instance",
+		"equivocating_first_leader_commit_quorum_for_the_other_block":
 		return []int{0}
 	case "lagging_node_drains_cached_height", "new_view_reaches_member_that_has_not_timed_out", "new_view_two_views_ahead_reaches_member_in_view_0":
 		return nil
-	case "lagging_member_with_foreign_instance_prepare_in_its_future_cache":
+	case "lagging_member_with_foreign_instance_prepare_in_its_future_cache", "byzantine_commit_for_another_hash_before_two_genuine_commits",
+		"byzantine_commit_with_share_copied_from_a_genuine_commit", "vote_with_genuine_proof_and_another_block_to_a_leader_holding_the_proposal":
 		return []int{3}
 	case "fork_via_proof_with_prepares_of_older_view", "heavy_pair_vote_with_unvalidated_block_but_no_proof":
 		return []int{2}
@@ -893,6 +980,7 @@ func cmdScenarios(args []string) int {
 	fs := flag.NewFlagSet("scenarios", flag.ExitOnError)
 	outPath := fs.String("out", "scenarios.ndjson", "")
 	only := fs.String("only", "", "run only this scenario")
+	probe := fs.Int("probe", -1, "C11: see cluster -probe")
 	fs.Parse(args)
 	out := newNdjson(*outPath)
 	defer out.close()
@@ -910,7 +998,7 @@ func cmdScenarios(args []string) int {
 		}
 		byz := scenarioByz(name)
 		cl := newCluster(scenarioWeights(name), byz, 1, false)
-		r := &run{cl: cl, adv: newAdversary(cl), rnd: newRand(int64(i)), out: out, chain: map[uint64]commitRec{}, maxH: 2, stats: stats, tmpl: tmpl}
+		r := &run{cl: cl, adv: newAdversary(cl), rnd: newRand(int64(i)), out: out, chain: map[uint64]commitRec{}, maxH: 2, stats: stats, tmpl: tmpl, probeOn: *probe >= 0, probe: *probe}
 		r.label = name
 		r.emitInit(i)
 		scenarioTable[name](&sc{run: r, name: name, budget: -1})
